@@ -642,5 +642,8 @@ def run(tier, seed):
             chk.disagree(op, f"{s}: model {rep_[1:5]} implementation ({u.base_value}, {u.base_offset}, {gen.dim_vec(u.dimensions)})")
     rule = ("all table rows and prefixes against the hand-written reference; names from inv_name_alternatives (sampled in quick, all in thorough) against "
             "prefix*base computed from the live table; generated compounds (1-5 factors, exponent set incl. rationals, coefficients, sqrt(), parentheses, "
-            "prefixes) against the product of their constituents; commensurable .to() pairs against the scale ratio; distinct = distinct string / pair")
+            "prefixes) against the product of their constituents; commensurable .to() pairs against the scale ratio; numeric literals generated from a "
+            "structure (point position, exponent part, marker case, sign, separators, radix) alone, as coefficient / divisor / exponent / conversion target, "
+            "against the spelled value; nested trees (products, quotients, rational powers, sqrt, coefficients at any depth) rendered to strings against "
+            "the constituents; distinct = distinct string / pair")
     return chk.finish(rule)
